@@ -222,7 +222,21 @@ func (w *w1) opACL(client int, op simrt.Op) {
 		r.Version = 8
 		mt := kmsg.NewMetadataRequestTopic()
 		mt.Topic = kmsg.StringPtr(topic)
-		r.Topics = append(r.Topics, mt)
+		if op.D%3 == 0 {
+			// several topics in one request, existing ones first and a name nobody was granted anything on last:
+			// whether a topic may be auto-created is a per-topic question
+			for _, first := range []string{"t0", "t1"} {
+				m0 := kmsg.NewMetadataRequestTopic()
+				m0.Topic = kmsg.StringPtr(first)
+				r.Topics = append(r.Topics, m0)
+			}
+			r.Topics = append(r.Topics, mt)
+			m2 := kmsg.NewMetadataRequestTopic()
+			m2.Topic = kmsg.StringPtr(fmt.Sprintf("unlisted-%d", op.D%4))
+			r.Topics = append(r.Topics, m2)
+		} else {
+			r.Topics = append(r.Topics, mt)
+		}
 		r.AllowAutoTopicCreation = true
 		req = r
 		items = func(resp kmsg.Response) []aclItem { return nil } // judged by effects only
@@ -517,6 +531,9 @@ func (w *w1) opACL(client int, op simrt.Op) {
 			}
 		}
 		noPerm := op.S == "metadata" && !w.refACL.allows(principal, "produce", "topic", topic) && !w.refACL.allows(principal, "fetch", "topic", topic) && !w.refACL.allows(principal, "admin", "cluster", "cluster")
+		if op.S == "metadata" && op.D%3 == 0 {
+			noPerm = false // the request names several topics: judged per created topic below
+		}
 		if (denied && !mixed) || noPerm {
 			for _, wr := range w.store.Writes()[storeBefore:] {
 				if wr.Task == task || strings.HasPrefix(wr.Task, task+"/") {
@@ -539,6 +556,18 @@ func (w *w1) opACL(client int, op simrt.Op) {
 			}
 			if noPerm && !topicExisted && w.topicExists(topic) && w.stepCreatedBy(task, storeBefore) {
 				w.sim.Fail("C24", "topic-created-by-unauthorized-request", "metadata request by %q created topic %q", principal, topic)
+			}
+		}
+		if op.S == "metadata" {
+			// whatever else the request named: a topic this request created is one the principal holds something on
+			for _, wr := range w.store.Writes()[storeBefore:] {
+				if wr.Method == "CreateTopic" && !wr.Err && (wr.Task == task || strings.HasPrefix(wr.Task, task+"/")) {
+					w.sim.Probe("c24.metadata-auto-created")
+					if !w.refACL.allows(principal, "produce", "topic", wr.Key) && !w.refACL.allows(principal, "fetch", "topic", wr.Key) && !w.refACL.allows(principal, "admin", "cluster", "cluster") {
+						w.sim.Fail("C24", "topic-created-by-unauthorized-request", "metadata request by %q created topic %q, on which it holds no permission (the request also named topics it may use)", principal, wr.Key)
+						return
+					}
+				}
 			}
 		}
 		_ = invoke
